@@ -16,6 +16,7 @@ RULE = (
     "(thorough 14) edits; the node/edge views and every stat object are created ONCE before the history and re-read "
     "after every edit: view order, degree/size/order against brute force from members()/memberships(), handshake sums, "
     "asdict/aslist/asnumpy/aspandas/multi agreement and order, stat[id], filterby/filterby_attr, neighbors, lookup, "
+    "Weights include 0 and a negative value; filterby also receives stat objects built with positional arguments. "
     "isolates, singletons, empty, duplicates, maximal. non-trivial = >=1 edit changed the structure between creating "
     "and re-reading the stat objects and the node insertion order differs from sorted order"
 )
